@@ -367,7 +367,37 @@ def rule_r7(chk, facts):
         units.check_function(chk, 'C04-R7', facts.func('asmcode.c', fn), T, None, FN)
 
 
+def rule_r8(chk, facts):
+    chk.rule('C04-R8', 'WriteCode(): whenever a line advances the program counter of a real segment while code is being '
+             'output, the segment is marked used (PCsUsed[ActPC] = True) first - also for lines that only move the counter '
+             '(ORG, reservations): SetNSeg() puts a segment that is not marked used back to its initial address at the next '
+             'CPU or SEGMENT statement, and the following code would land there', min_instances=1)
+    f = facts.func('as.c', 'WriteCode')
+    IDX = ('i', ('g', 'PCs'), ('g', 'ActPC'))
+    n = 0
+    for b, i, ln, m in f.nodes():
+        if not (is_assign(m) and strip(m[2]) == IDX):
+            continue
+        n += 1
+
+        def marks(ex):
+            return any(is_assign(x) and x[1] == '=' and nocast(x[2])[0] == 'i' and nocast(nocast(x[2])[1]) == ('g', 'PCsUsed') and
+                       const_val(nocast(x[3])) not in (None, 0) for x in walk_own(ex))
+
+        def no_output(l):
+            return edge_has_atom(l, lambda a: (a[0] == 'z' and isinstance(a[1], tuple) and a[1][0] in GLOBKINDS and a[1][1] == 'CodeOutput') or
+                                 (a[0] == 'cmp' and a[1] == '==' and a[2] == ('g', 'ActPC')))
+        ok, w = f.guarded(b, i, no_output, marks)
+        chk.ob('C04-R8', 'as.c:WriteCode:used-before-advance@%d' % n, ok, f.loc(ln),
+               'marked used on every code-output path' if ok else
+               'the counter is advanced on a path (%s) on which PCsUsed[ActPC] was not set: after "ORG $1000 / CPU 6502" the '
+               'code is written from address 0' % ' '.join(w[-5:]))
+    if not n:
+        raise AnalysisBroken('WriteCode: advance of PCs[ActPC] not found')
+
+
 def run(chk, facts, info):
+    rule_r8(chk, facts)
     rule_r7(chk, facts)
     rule_r1(chk, facts)
     rule_r2(chk, facts)
